@@ -180,6 +180,32 @@ def is_own_location(view, t, root_loc_names):
     return False
 
 
+
+def _loc_resolved(view, locc, root_loc_names):
+    """the location term is made of things the rule reads (own location, push_key / push_index of it, constants, iterator
+    items); a location that comes out of a local function / a struct field / a multi-assigned local is not resolved"""
+    t = locc
+    if is_own_location(view, t, root_loc_names):
+        return True
+    if t[0] in ("push_key", "push_index") and len(t) >= 3:
+        base_ok = _loc_resolved(view, t[1], root_loc_names)
+        arg = t[2]
+        arg_ok = arg[0] in ("const", "field", "next", "param") or (arg[0] == "multi")
+        return base_ok and arg_ok
+    if t[0] == "agg" and t[1] == "adt":
+        return True
+    if t[0] == "param":
+        return True
+    return False
+
+
+def _child_loc_finding(view, root_loc_names, locc, what, bb):
+    f = finding("C04.CHILD", view, what, bb, fmt(locc))
+    if not _loc_resolved(view, locc, root_loc_names):
+        f.what = what + " - the location term was not resolved (it comes out of a helper / a struct field): not recognised (undecided)"
+        f.undecided = True
+    return f
+
 def c04_rules(view, bs, root_loc_names=("location", "deserr_location__"), root_view=None):
     out = []
     ob = 0
@@ -220,18 +246,18 @@ def c04_rules(view, bs, root_loc_names=("location", "deserr_location__"), root_v
             okl = (locc[0] == "push_key" and is_own_location(view, locc[1], root_loc_names)
                    and _same_field(locc[2], want_key))
             if part != "1" or not okl:
-                out.append(finding("C04.CHILD", view, "map entry child is not located at push_key(own location, this entry's key)", ch["bb"], fmt(locc)))
+                out.append(_child_loc_finding(view, root_loc_names, locc, "map entry child is not located at push_key(own location, this entry's key)", ch["bb"]))
         elif kind == "Sequence::Iter" and enum:
             want_ix = ("field", ("field", ("next", nbb), "Some", "0"), None, "0")
             okl = (locc[0] == "push_index" and is_own_location(view, locc[1], root_loc_names)
                    and _same_field(locc[2], want_ix))
             if part != "1" or not okl:
-                out.append(finding("C04.CHILD", view, "sequence element child is not located at push_index(own location, this element's index)", ch["bb"], fmt(locc)))
+                out.append(_child_loc_finding(view, root_loc_names, locc, "sequence element child is not located at push_index(own location, this element's index)", ch["bb"]))
         elif kind == "Sequence::Iter" and loop_of(view, nbb) is not None and locc[0] == "push_index" and locc[2][0] == "multi" \
                 and is_iteration_counter(view, locc[2][1], nbb, ch["bb"]):
             # hand-written induction variable: `let mut i = 0; for x in seq { .. push_index(i) ..; i += 1 }`
             if part != "item" or not is_own_location(view, locc[1], root_loc_names):
-                out.append(finding("C04.CHILD", view, "sequence element child is not located at push_index(own location, this element's index)", ch["bb"], fmt(locc)))
+                out.append(_child_loc_finding(view, root_loc_names, locc, "sequence element child is not located at push_index(own location, this element's index)", ch["bb"]))
         elif kind == "Sequence::Iter":
             # un-enumerated: only sound for unrolled code, the k-th step gets constant k
             if loop_of(view, nbb) is not None:
